@@ -268,6 +268,12 @@ def _explicit_merge_nest(fi, inp: Term, pers: Term):
         # leaf
         if len(body) == 1:
             st = body[0]
+            # `tgt.setdefault(k, {}).update(<something built from v>)`: the next level is overwritten wholesale
+            if isinstance(st, _ast.Expr) and isinstance(st.value, _ast.Call) and isinstance(st.value.func, _ast.Attribute) and st.value.func.attr == "update" \
+                    and setdefault_call(st.value.func.value, tgt, k) is not None and any(isinstance(n, _ast.Name) and n.id == v for a in st.value.args for n in _ast.walk(a)):
+                levels.append({"both": "recurse", "only_other": ("add", 1)})
+                levels.append({"both": "new", "only_other": ("add", 0)})
+                return
             if isinstance(st, _ast.Expr):
                 dflt = setdefault_call(st.value, tgt, k)
                 if isinstance(dflt, _ast.Name) and dflt.id == v:
@@ -641,7 +647,8 @@ def _copy_depth_of(v: Term, src: Term) -> Optional[int]:
             same = a if a == dec[2] else b
             if same != dec[2] or not (T.strip(val[1])[0] == "call" and T.strip(val[1])[1] == T.glob("isinstance")):
                 return None
-            val = other
+            # the copy is the branch taken for dicts; with the branches the other way round a dict is stored as it is
+            val = other if a != dec[2] else dec[2]
         inner = _copy_depth_of(val, dec[2])
         return None if inner is None else 1 + inner
     return None
